@@ -1,6 +1,5 @@
-import TinsModel.Wire.Iface
+import TinsModel.Wire.Ip.Util
 import TinsModel.Wire.Checksum
-import TinsModel.Wire.Tags
 import TinsModel.Checksum.Model
 /-
   `Tins::IP` (src/ip.cpp, include/tins/ip.h), little-endian host.
@@ -38,8 +37,6 @@ structure Ip4 where
   dst : Bytes
   opts : List IpOpt   -- options_
 deriving Repr, DecidableEq
-
-def byteAt (bs : Bytes) (i : Nat) : Nat := (bs.getD i 0).toNat
 
 /-- `option_identifier` fields of a type octet (little-endian bit-field layout: number:5, op_class:2, copied:1) -/
 def optNumber (t : Nat) : Nat := t % 32
